@@ -332,6 +332,13 @@ def s_sel(rng, nval):
     # selection idiom
     prog.append(["sig", "m", ["p", ["b", "+", ["s", ["c", ">", ["v", "a"], ["n", thr]], ["v", "b"]],
                                    ["s", ["c", "<=", ["v", "a"], ["n", thr]], ["v", "c"]]], types.fresh()]])
+    # compile-time comparisons (int variable vs literal) inside condition chains, true and false
+    prog.insert(0, ["int", "ki", ["n", rng.randint(0, 5)]])
+    cc = ["c", rng.choice(CMP_OPS), ["v", "ki"], ["n", rng.randint(0, 5)]]
+    sc = ["c", rng.choice(CMP_OPS), ["v", "a"], ["n", thr]]
+    op = rng.choice(["&&", "||"])
+    prog.append(["sig", "ic", ["p", ["s", [op, cc, sc] if rng.random() < 0.5 else [op, sc, cc], ["v", "b"]], types.fresh()]])
+    prog.append(["sig", "il", ["p", [rng.choice(["&&", "||"]), cc, sc], types.fresh()]])
     edges = {"a": list(range(-6, 16)), "c": list(range(-6, 16))}
     return _mk(prog, "cond_value", rng, nval, edges=edges)
 
